@@ -194,3 +194,57 @@ pub open spec fn ed_row(s: Screen, how: Option<u32>, y: u32) -> bool {
         _ => false,
     }
 }
+
+/// everything except cells, dirty rows and the cursor column
+pub open spec fn same_but_cells_dirty_cx(a: Screen, b: Screen) -> bool {
+    a.savepoints@ == b.savepoints@ && a.columns == b.columns && a.lines == b.lines
+    && a.margins == b.margins && a.mode@ == b.mode@ && a.title@ == b.title@
+    && a.icon_name@ == b.icon_name@ && a.charset == b.charset && a.g0_charset == b.g0_charset
+    && a.g1_charset == b.g1_charset && a.tabstops@ == b.tabstops@ && a.cursor.y == b.cursor.y
+    && a.cursor.attr == b.cursor.attr && a.cursor.hidden == b.cursor.hidden
+    && a.saved_columns == b.saved_columns
+}
+pub open spec fn in_region(s: Screen) -> bool { top_of(s) <= s.cursor.y && s.cursor.y <= bottom_of(s) }
+
+/// a row of the sparse buffer as a map (absent row = empty map)
+pub open spec fn rowmap(b: Map<u32, HashMap<u32, CharOpts>>, r: u32) -> Map<u32, CharOpts> {
+    if b.contains_key(r) { b[r]@ } else { Map::empty() }
+}
+/// buffer `b` shows the same rows as `p` (rows may have been materialised as empty maps)
+pub open spec fn same_rows(b: Map<u32, HashMap<u32, CharOpts>>, p: Map<u32, HashMap<u32, CharOpts>>) -> bool {
+    (forall|r: u32| #![trigger b.contains_key(r)] p.contains_key(r) ==> b.contains_key(r))
+    && (forall|r: u32| #![trigger b[r]] b.contains_key(r) ==> b[r]@ == rowmap(p, r))
+}
+
+/// everything except cells, dirty rows and the cursor position
+pub open spec fn same_but_cells_dirty_cxy(a: Screen, b: Screen) -> bool {
+    a.savepoints@ == b.savepoints@ && a.columns == b.columns && a.lines == b.lines
+    && a.margins == b.margins && a.mode@ == b.mode@ && a.title@ == b.title@
+    && a.icon_name@ == b.icon_name@ && a.charset == b.charset && a.g0_charset == b.g0_charset
+    && a.g1_charset == b.g1_charset && a.tabstops@ == b.tabstops@
+    && a.cursor.attr == b.cursor.attr && a.cursor.hidden == b.cursor.hidden
+    && a.saved_columns == b.saved_columns
+}
+
+/// everything except margins and the cursor position
+pub open spec fn same_but_margins_cxy(a: Screen, b: Screen) -> bool {
+    a.savepoints@ == b.savepoints@ && a.columns == b.columns && a.lines == b.lines && a.dirty@ == b.dirty@
+    && a.buffer@ == b.buffer@ && a.mode@ == b.mode@ && a.title@ == b.title@
+    && a.icon_name@ == b.icon_name@ && a.charset == b.charset && a.g0_charset == b.g0_charset
+    && a.g1_charset == b.g1_charset && a.tabstops@ == b.tabstops@
+    && a.cursor.attr == b.cursor.attr && a.cursor.hidden == b.cursor.hidden
+    && a.saved_columns == b.saved_columns
+}
+/// DECSTBM: `CSI r` alone (both absent, or top 0 and bottom absent) removes the region
+pub open spec fn stbm_clears(top: Option<u32>, bottom: Option<u32>) -> bool {
+    (top.is_none() || top == Some(0u32)) && bottom.is_none()
+}
+/// 1-based parameter to 0-based row, clamped to the screen; absent keeps the current value
+pub open spec fn stbm_row(p: Option<u32>, cur: int, lines: int) -> int {
+    match p { None => cur, Some(v) => vmax(0, vmin(v - 1, lines - 1)) }
+}
+pub open spec fn stbm_top(s: Screen, top: Option<u32>) -> int { stbm_row(top, top_of(s), s.lines as int) }
+pub open spec fn stbm_bottom(s: Screen, bottom: Option<u32>) -> int { stbm_row(bottom, bottom_of(s), s.lines as int) }
+pub open spec fn stbm_accepts(s: Screen, top: Option<u32>, bottom: Option<u32>) -> bool {
+    !stbm_clears(top, bottom) && stbm_bottom(s, bottom) - stbm_top(s, top) >= 1
+}
